@@ -422,3 +422,11 @@ func (w *World) SrcFuncsIn(rel string) []*ssa.Function {
 	}
 	return out
 }
+
+// RecvName0 returns the receiver type name of an SSA method ("" for functions).
+func RecvName0(fn *ssa.Function) string {
+	if o, ok := fn.Object().(*types.Func); ok && o != nil {
+		return RecvName(o)
+	}
+	return ""
+}
